@@ -146,5 +146,5 @@ def run(report, findings):
         "samples": keys[:2] + keys[len(keys) // 2: len(keys) // 2 + 2] + keys[-2:],
         "known_failing_inputs_listed": len(known), "new_failures": bad,
     })
-    report.assumptions = ["rank / column-space comparison is numeric (SVD, least squares, tol 1e-8)",
-                          "the enumerated family is fixed; only the numeric data depend on VERIF_SEED"]
+    report.assumptions = list(dict.fromkeys(list(report.assumptions) + ["rank / column-space comparison is numeric (SVD, least squares, tol 1e-8)",
+                          "the enumerated family is fixed; only the numeric data depend on VERIF_SEED"]))
